@@ -27,7 +27,10 @@ RULE = ("E4: outline template with the 6 placeholder positions {name, step name,
         "step-table cell, tag} independently switched on (text with <a> <b> and the unknown <zz>) or off (same text "
         "with plain a b zz) = 64 masks; 0-2 examples blocks of 0-2 rows (13 shapes), column order (a,b)/(b,a), block "
         "tags {none, (e1 e.2), (dir/x e+1!) = characters the tag normalisation would strip, (e<a> e<zz>) = placeholder "
-        "text inside a BLOCK tag, which must stay as written}, block name {plain 'Ex one'/empty, 'E-<a>', '<a><b>', 'N<row.id>-<zz>', '<b> of <examples.index>'} rendered per "
+        "text inside a BLOCK tag, which must stay as written}, Examples sections WITHOUT a table (slot 'tl': before all / after "
+        "the first / after all blocks x keyword only / named / tagged; no scenarios; both numberings of "
+        "examples.index accepted; also two start outlines of the history search, where every operation reaches a block "
+        "before and a block after such a section), block name {plain 'Ex one'/empty, 'E-<a>', '<a><b>', 'N<row.id>-<zz>', '<b> of <examples.index>'} rendered per "
         "row from the block's own template, the documented special placeholders <examples.name> <examples.index> "
         "<row.index> <row.id> appended to outline name, step name and tags (slot 'special'), cell values {x, '', ue-umlaut, b (the OTHER column's name as plain "
         "text), 'x y'}, annotation schema {default, '{name} [{row.id}]', '{name}'}. Decorations of one step are COMBINED (slot 'combo': doc-string then table on the same step, table "
@@ -43,7 +46,7 @@ RULE = ("E4: outline template with the 6 placeholder positions {name, step name,
         "existing column is a placeholder. Deviation = a delimiter fragment, a combo, a background, a non-'x' cell, a "
         "(b,a) block, a tagged block, a templated block name, the special slot, a non-default schema. quick: all 64 masks x all shapes x <=1 deviation (block-name / special-placeholder / "
         "exotic-block-tag / rule-background deviations on the 8 masks {none, each single position, all} only), full mask "
-        "x <=2 deviations (pairs with a background deviation use 5 of the 11 background layouts); thorough: all masks x <=2, full mask x <=3, and full mask x ALL value/order/tag/schema "
+        "x <=2 deviations (pairs with a background deviation use 5 of the 11 background layouts, pairs with a table-less section 3 of its 9 placements, pairs with a delimiter fragment 3 of the 6); thorough: all masks x <=2, full mask x <=3, and full mask x ALL value/order/tag/schema "
         "combinations on shapes with <=2 rows. Every outline is parsed from rendered text AND built through the model "
         "API; the parsed feature is also really run (quick: on the 8 masks {none, single position, all} and on every "
         "combo/background outline; thorough: always). E2: histories over a BASE alphabet {read .scenarios, run, add_row(block, 2 value patterns, list "
@@ -216,6 +219,9 @@ def _decorate(tmpl, mask, combo, bg):
 
 def block_model(block, index):
     """(order, tagged, rows[, name template index]) -> dict(name, tags, headings, rows=[cells])"""
+    if block[0] == "notable":             # ("notable", name, tagged): Examples keyword without a table
+        return {"name": block[1], "tags": list(BLOCK_TAGSETS[int(block[2])]), "headings": [], "rows": [],
+                "notable": True}
     order, tagged, rows = block[:3]
     bname = BLOCK_NAME_TEMPLATES[block[3]] if len(block) > 3 and block[3] else BLOCK_NAMES[index % 2]
     heads = [u"a", u"b"] if order == 0 else [u"b", u"a"]
@@ -278,6 +284,9 @@ def render(tmpl, blocks):
         if b["tags"]:
             emit(u"    " + u" ".join(u"@" + t for t in b["tags"]))
         lines["examples"].append(emit(u"    Examples:" + (u" " + b["name"] if b["name"] else u"")))
+        if b.get("notable"):
+            lines["rows"].append([])        # Examples keyword without any table
+            continue
         emit(u"      | " + u" | ".join(b["headings"]) + u" |")
         rl = []
         for r in b["rows"]:
@@ -302,24 +311,29 @@ def tag_name(text):
     return u"".join(u"_" if ch.isspace() else ch for ch in text if ch not in u"<>")
 
 
-def ref_expand(tmpl, blocks, schema):
-    """-> [dict(name, tags(sorted), steps, bi, ri)] one per (block, row) in order"""
+def ref_expand(tmpl, blocks, schema, count_tableless=True):
+    """-> [dict(name, tags(sorted), steps, bi, ri)] one per (block, row) in order.
+    An Examples section WITHOUT a table contributes no scenario; whether it still counts for examples.index / row.id
+    is not fixed by the statement: count_tableless selects the numbering (both are accepted by the callers)"""
     schema = schema or DEFAULT_SCHEMA
     out = []
+    xi = 0
     for bi, b in enumerate(blocks):
+        if count_tableless or not b.get("notable"):
+            xi += 1
         for ri, cells in enumerate(b["rows"]):
             row = dict(zip(b["headings"], cells))
             # special placeholders of THIS row; the examples name is rendered from the block's own template name
-            sp = {u"examples.index": u"%d" % (bi + 1), u"row.index": u"%d" % (ri + 1),
-                  u"row.id": u"%d.%d" % (bi + 1, ri + 1)}
+            sp = {u"examples.index": u"%d" % xi, u"row.index": u"%d" % (ri + 1),
+                  u"row.id": u"%d.%d" % (xi, ri + 1)}
             sp.update(row)
             ex_name = subst(b["name"], sp)
             rowsp = dict(sp)
             rowsp[u"examples.name"] = ex_name
             rowsp.update(row)
             name = subst(tmpl["name"], rowsp)
-            full = (schema.replace(u"{name}", u"\0").replace(u"{row.id}", u"%d.%d" % (bi + 1, ri + 1))
-                    .replace(u"{row.index}", u"%d" % (ri + 1)).replace(u"{examples.index}", u"%d" % (bi + 1))
+            full = (schema.replace(u"{name}", u"\0").replace(u"{row.id}", u"%d.%d" % (xi, ri + 1))
+                    .replace(u"{row.index}", u"%d" % (ri + 1)).replace(u"{examples.index}", u"%d" % xi)
                     .replace(u"{examples.name}", u"\1").replace(u"\0", name).replace(u"\1", ex_name))
             tags = []
             tags_opt = []
@@ -384,6 +398,9 @@ def snap_template(outline):
     """everything the statement calls 'the outline template' + the examples tables"""
     ex = []
     for e in outline.examples:
+        if e.table is None:
+            ex.append((u"%s" % e.name, [u"%s" % t for t in e.tags], None, None))
+            continue
         ex.append((u"%s" % e.name, [u"%s" % t for t in e.tags], list(e.table.headings),
                    [(list(r.cells), r.line) for r in e.table.rows]))
     bg = None
@@ -566,6 +583,8 @@ def parse_outline(tmpl, blocks):
 
 def make_examples(b, line, index):
     from behave.model import Examples, Table
+    if b.get("notable"):
+        return Examples(u"api.feature", line, u"Examples", b["name"], tags=list(b["tags"]), table=None)
     table = Table(list(b["headings"]), line=line + 1)
     for i, r in enumerate(b["rows"]):
         table.add_row(list(r), line + 2 + i)
@@ -655,6 +674,22 @@ def run_feature(feature):
 # =============================================================================
 # E4 case function
 # =============================================================================
+def quiet(func):
+    """behave print()s "ERROR: ScenarioOutline.Examples: Has NO-TABLE syndrome" whenever an outline with a table-less
+    Examples section is expanded: the case functions run with stdout/stderr swallowed"""
+    import functools
+
+    @functools.wraps(func)
+    def wrapper(case):
+        old = sys.stdout, sys.stderr
+        sys.stdout = sys.stderr = io.StringIO()
+        try:
+            return func(case)
+        finally:
+            sys.stdout, sys.stderr = old
+    return wrapper
+
+
 def _merge_modes(per_mode):
     """violations seen identically (same descriptor apart from 'built') in both construction modes are one class"""
     out = []
@@ -671,6 +706,7 @@ def _merge_modes(per_mode):
     return out
 
 
+@quiet
 def check_outline(case):
     """case = (mask, blocks, schema_id); blocks = ((order, tagged, ((va, vb), ...)), ...)"""
     mask, blocks_spec, schema_id = case[:3]
@@ -679,6 +715,7 @@ def check_outline(case):
     bg = case[5] if len(case) > 5 else 0
     do_run = case[6] if len(case) > 6 else 1
     delim = case[7] if len(case) > 7 else 0
+    tl = case[8] if len(case) > 8 else 0
     schema = SCHEMAS[schema_id]
     tmpl = template(mask, special=special, combo=combo, bg=bg, delim=delim)
     nsteps = len(tmpl["steps"]) + len(tmpl.get("bg") or ()) + len(tmpl.get("rbg") or ())
@@ -687,6 +724,15 @@ def check_outline(case):
         for b in blocks:
             if b["name"]:
                 b["name"] = delim_text(b["name"], delim)
+    want_alt = None
+    if tl:
+        # slot 'tl': one Examples section WITHOUT a table - position {before all, after the first, after all blocks} x
+        # kind {keyword only, keyword + name, tagged + named}
+        pos, kind = divmod(tl - 1, 3)
+        nb = {"name": (u"", u"no table", u"no table")[kind], "tags": list(BLOCK_TAGSETS[1]) if kind == 2 else [],
+              "headings": [], "rows": [], "notable": True}
+        blocks.insert((0, min(1, len(blocks)), len(blocks))[pos], nb)
+        want_alt = ref_expand(tmpl, blocks, schema, count_tableless=False)
     want = ref_expand(tmpl, blocks, schema)
     # input class in which a row's cell, put between the template's own stray brackets ('<<a>>'), spells ANOTHER
     # column's placeholder: named in the descriptor, because sequential and simultaneous substitution differ there
@@ -741,6 +787,10 @@ def check_outline(case):
                 continue
             obs.append((mode, [sorted(snap_scenario(s).items()) for s in scenarios]))
             v_exp = compare_expansion(scenarios, want_m, row_lines, outline, base, "%s outline" % mode)
+            if v_exp and want_alt is not None and want_m is want and \
+                    not compare_expansion(scenarios, want_alt, row_lines, outline, base, "%s outline" % mode):
+                v_exp = []          # the other numbering of examples.index (table-less sections not counted)
+                want_m = want_alt
             v += v_exp
             template_ok = snap_template(outline) == before
             if template_ok:
@@ -847,12 +897,13 @@ def slots(shape):
     out.append((("combo",), (1, 2, 3)))
     out.append((("bg",), (1, 2) + tuple(range(3, 12))))
     out.append((("delim",), (1, 2, 3, 4, 5, 6)))
+    out.append((("tl",), tuple(range(1, 10))))
     return out
 
 
 def apply_devs(shape, devs):
     blocks = [[0, 0, [[VALUES[0], VALUES[0]] for _ in range(nr)], 0] for nr in shape]
-    schema = special = combo = bg = delim = 0
+    schema = special = combo = bg = delim = tl = 0
     for slot, val in devs:
         if slot[0] == "order":
             blocks[slot[1]][0] = val
@@ -870,9 +921,11 @@ def apply_devs(shape, devs):
             bg = val
         elif slot[0] == "delim":
             delim = val
+        elif slot[0] == "tl":
+            tl = val
         else:
             schema = val
-    return tuple((o, t, tuple(tuple(r) for r in rows), bn) for o, t, rows, bn in blocks), schema, special, combo, bg, delim
+    return tuple((o, t, tuple(tuple(r) for r in rows), bn) for o, t, rows, bn in blocks), schema, special, combo, bg, delim, tl
 
 
 BG_FEW = (1, 2, 5, 9, 10)      # feature bg parametrised / plain; in a rule: (absent, param), (param, absent), (param, plain)
@@ -882,7 +935,9 @@ def deviations(shape, k, few_bg=False):
     """all assignments with exactly k deviating slots"""
     sl = slots(shape)
     if few_bg:
-        sl = [(slot, tuple(o for o in opts if o in BG_FEW) if slot == ("bg",) else opts) for slot, opts in sl]
+        sl = [(slot, tuple(o for o in opts if o in BG_FEW) if slot == ("bg",) else
+               tuple(o for o in opts if o in (1, 5, 9)) if slot == ("tl",) else
+               tuple(o for o in opts if o in (1, 3, 6)) if slot == ("delim",) else opts) for slot, opts in sl]
     for combo in itertools.combinations(range(len(sl)), k):
         for vals in itertools.product(*[sl[i][1] for i in combo]):
             yield [(sl[i][0], v) for i, v in zip(combo, vals)]
@@ -893,7 +948,7 @@ FEW_MASKS = (0, NAME, STEP, DOC, THEAD, TCELL, TAG, FULL)
 
 def _mask_independent(devs):
     """deviations whose effect does not depend on which template positions carry column placeholders"""
-    return any(slot[0] in ("bname", "special", "delim") or (slot[0] == "tagged" and val > 1) or (slot[0] == "bg" and val > 2)
+    return any(slot[0] in ("bname", "special", "delim", "tl") or (slot[0] == "tagged" and val > 1) or (slot[0] == "bg" and val > 2)
                for slot, val in devs)
 
 
@@ -901,7 +956,7 @@ def outline_cases(masks, maxdev, mindev=0, few_masks_for_independent=False, few_
     for k in range(mindev, maxdev + 1):
         for shape in SHAPES:
             for devs in deviations(shape, k, few_bg):
-                blocks, schema, special, combo, bg, delim = apply_devs(shape, devs)
+                blocks, schema, special, combo, bg, delim, tl = apply_devs(shape, devs)
                 use = masks
                 if few_masks_for_independent and _mask_independent(devs):
                     use = [m for m in masks if m in FEW_MASKS]
@@ -909,7 +964,7 @@ def outline_cases(masks, maxdev, mindev=0, few_masks_for_independent=False, few_
                     # the real run of the parsed feature (template unchanged by running, generated scenarios pass):
                     # on every outline (thorough) / on the 8 FEW_MASKS and every combo/background outline (quick)
                     yield (mask, blocks, schema, special, combo, bg,
-                           1 if (run_all or mask in FEW_MASKS or combo or bg) else 0, delim)
+                           1 if (run_all or mask in FEW_MASKS or combo or bg) else 0, delim, tl)
 
 
 def exhaustive_value_cases(mask, max_rows):
@@ -935,6 +990,9 @@ STARTS = (
     (),                                                       # outline without examples
     ((0, 0, ((u"x", u"\xfc"),)),),                             # one block (a,b), one row
     ((0, 3, ((u"x", u"b"), (u"", u"x y")), 1), (1, 2, ())),       # two blocks (tags e<a> e<zz> / dir/x e+1!), second (b,a), empty
+    # Examples sections WITHOUT a table: operations reach a block before and a block after one; and one comes first
+    ((0, 0, ((u"x", u"\xfc"),)), ("notable", u"no table", 1), (1, 0, ((u"b", u"x"), (u"x y", u"")))),
+    (("notable", u"", 0), (0, 0, ((u"x", u"b"),))),
 )
 ROW_PATTERNS = ({u"a": u"x", u"b": u"x", u"c": u"x"}, {u"a": u"\xfc", u"b": u"b", u"c": u"x y"})
 APPEND_KINDS = (([u"a", u"b"], [[u"x", u"\xfc"]]), ([u"b", u"a"], []))
@@ -971,6 +1029,8 @@ def is_variant(op, reset_is_base=False):
 def applicable_ops(model):
     ops = [("read",), ("run",)] + [("reset", kind) for kind in RESET_KINDS]
     for bi, b in enumerate(model):
+        if b.get("notable"):
+            continue                        # no table, no table API
         for pat in range(len(ROW_PATTERNS)):
             for kind in ADD_ROW_KINDS:
                 ops.append(("add_row", bi, pat, kind))
@@ -986,7 +1046,7 @@ def applicable_ops(model):
             ops.append(("rm_col_idx", bi, "first"))       # ... and by index
             if len(b["headings"]) > 1:
                 ops.append(("rm_col_idx", bi, "last"))
-    if len(model) < MAX_BLOCKS:
+    if len([b for b in model if not b.get("notable")]) < MAX_BLOCKS:
         for kind in range(len(APPEND_KINDS)):
             ops.append(("append", kind))
     return ops
@@ -1092,7 +1152,8 @@ def real_apply(feature, outline, model_before, op):
 
 
 def canonical(outline):
-    tables = tuple((e.name, tuple(e.tags), tuple(e.table.headings),
+    tables = tuple((e.name, tuple(e.tags), None) if e.table is None else
+                   (e.name, tuple(e.tags), tuple(e.table.headings),
                     tuple((type(r.cells).__name__, tuple(r.cells), r.line) for r in e.table.rows), e.table.line,
                     bool(e.table.modified))
                    for e in outline.examples)
@@ -1115,6 +1176,7 @@ def _op_class(op):
     return op[0]
 
 
+@quiet
 def check_history(case):
     """case = (start_id, ops[, schema_id]); replays the history on a freshly parsed outline, then judges the final
     state under the CURRENT annotation schema"""
@@ -1160,7 +1222,8 @@ def check_history(case):
                           "history %r: after the reset these generated scenarios/steps still carry a status: %r"
                           % (ops, stale[:4])))
         # tables as the API left them vs the reference table model
-        real_tables = [(list(e.table.headings), [list(r.cells) for r in e.table.rows]) for e in outline.examples]
+        real_tables = [([], []) if e.table is None else
+                       (list(e.table.headings), [list(r.cells) for r in e.table.rows]) for e in outline.examples]
         want_tables = [(b["headings"], b["rows"]) for b in model]
         if real_tables != want_tables:
             # the table API itself left something else than documented: one descriptor (the operation's call form);
@@ -1171,14 +1234,14 @@ def check_history(case):
             return {"v": v, "dg": ("tables", real_tables), "out": "table-api-mismatch", "keep": (case, None, ()),
                     "st": {"transitions": 1 if ops else 0, "traces": 1}}
         for bi, e in enumerate(outline.examples):        # the examples tables through every read API
-            d = None if any(not isinstance(r.cells, list) for r in e.table.rows) else table_read_api_diff(e.table)
+            d = None if e.table is None or any(not isinstance(r.cells, list) for r in e.table.rows) else table_read_api_diff(e.table)
             if d:
                 v.append((dict(base, clause="examples-table-read-api", api=d[0],
                                op=_op_class(ops[-1]) if ops else "start"),
                           "history %r: examples table %d: %s" % (ops, bi + 1, d[1])))
                 return {"v": v, "dg": ("tables-api", d[0]), "out": "examples-table-read-api",
                         "keep": (case, None, ()), "st": {"transitions": 1 if ops else 0, "traces": 1}}
-        row_lines = [[r.line for r in e.table.rows] for e in outline.examples]
+        row_lines = [[] if e.table is None else [r.line for r in e.table.rows] for e in outline.examples]
         for bi, rl in enumerate(lines["rows"]):          # parsed rows keep the rendered line
             if row_lines[bi][:len(rl)] != rl:
                 v.append((dict(base, clause="parsed-row-lines"), "rows of block %d at %r, rendered at %r"
@@ -1195,6 +1258,10 @@ def check_history(case):
         if schema is not None:
             hist_base["schema"] = "non-default"
         v_exp = compare_expansion(scenarios, want, row_lines, outline, base, "history %r" % (ops,))
+        if v_exp and any(b.get("notable") for b in model):
+            want2 = ref_expand(tmpl, model, schema, count_tableless=False)
+            if not compare_expansion(scenarios, want2, row_lines, outline, base, "history %r" % (ops,)):
+                v_exp = []          # the other numbering of examples.index (table-less sections not counted)
         if v_exp:
             # is this the expansion itself (a freshly built outline over the same tables is wrong in the same way)
             # or the history (stale cache, table API)?  One defect -> one descriptor.
@@ -1261,6 +1328,7 @@ def failed_build_cases_with_resets(max_rows):
                 yield base + (sid, pos, RESET_KINDS[(pi + sid) % 3])
 
 
+@quiet
 def check_failed_build(case):
     shape, prior_read, pre, fault = case[:4]
     sid, reset_pos, reset_kind = case[4:] if len(case) > 4 else (0, None, None)
@@ -1365,12 +1433,12 @@ def allowed(history_ops, bounds, reset_is_base=False):
     return nvar in bounds and len(history_ops) <= bounds[nvar], nvar
 
 
-def bfs(ctx, bounds, dedup, label, schema_id=0):
+def bfs(ctx, bounds, dedup, label, schema_id=0, starts=None):
     """one sweep per depth level; a state is (canonical digest, number of variant operations used so far) - the
     second component is the remaining deviation budget, which also determines the futures explored"""
     depth = max(bounds.values())
     rb = schema_id != 0
-    frontier = [(s, (), schema_id) for s in range(len(STARTS))]
+    frontier = [(s, (), schema_id) for s in (range(len(STARTS)) if starts is None else starts)]
     seen = {}
     per_depth = []
     for d in range(depth + 1):
@@ -1423,8 +1491,13 @@ def run(ctx):
     ctx.guard(n_fb >= 0.9 * len(fb_cases), "the injected faults make the (re)build raise (%d of %d)"
               % (n_fb, len(fb_cases)))
     n_outlines = len(ctx.nt)
-    seen, per_depth = bfs(ctx, bounds, True, "histories")
-    nstates = len(seen)
+    # the three original start outlines to the full bounds; the two start outlines with a table-less Examples section
+    # (three blocks, hence a wider alphabet) one level less deep in the quick tier
+    seen, per_depth = bfs(ctx, bounds, True, "histories", 0, (0, 1, 2))
+    tl_bounds = dict((k, v - 1) for k, v in bounds.items()) if ctx.quick else bounds
+    seen_tl, per_tl = bfs(ctx, tl_bounds, True, "histories, table-less section", 0, (3, 4))
+    ctx.note("bfs_levels_tableless_starts", per_tl)
+    nstates = len(seen) + len(seen_tl)
     # the same search under the two non-default annotation schemas: base alphabet + the three reset operations
     sdepth = 3 if ctx.quick else 4
     for sid in (1, 2):
@@ -1436,7 +1509,7 @@ def run(ctx):
     ctx.note("max_depth", max(bounds.values()))
     ctx.note("frontier_exhausted", False)
     if nd_bounds is not None:
-        seen2, per2 = bfs(ctx, nd_bounds, False, "histories without dedup")
+        seen2, per2 = bfs(ctx, nd_bounds, False, "histories without dedup", 0, (0, 1, 2))
         ctx.note("bfs_levels_without_dedup", per2)
         # states reachable within the smaller bounds: the deduplicating search must have found exactly the same
         reach = set(k for k, case in seen.items() if k[1] in nd_bounds and len(case[1]) <= nd_bounds[k[1]])
